@@ -78,6 +78,18 @@ def cases(tier, seed, shard, nshards):
                           "ram_gb_per_pool": ram, "multi_operator_containers": True, "rest_poll_interval": interval,
                           "allow_memory_overcommit": rng.random() < 0.2},
                "workload": {"type": "script", "arrivals": arrivals}, "_poll": poll}
+    if tier == "thorough" or shard < 2:
+        # long REST run: ~2,500 calls, several hundred pipelines announced and completed
+        tps = 10
+        ticks = 2500
+        arrivals = {}
+        for j in range(500):
+            arrivals.setdefault(str(rng.randrange(0, 2300)), []).append(
+                gen.simple_pipeline(rng, f"L{j}", tps, nops=rng.choice([1, 2, 3]), mode="safe", cpus_hint=1, mem_ref=0.3, maxn=3))
+        yield {"kind": "rest", "policy": rng.choice(["random", "pack"]), "policy_seed": rng.getrandbits(32),
+               "params": {"duration": ticks / tps, "ticks_per_second": tps, "num_pools": 2, "cpus_per_pool": 8, "ram_gb_per_pool": 32,
+                          "multi_operator_containers": True, "rest_poll_interval": 0.0, "allow_memory_overcommit": False},
+               "workload": {"type": "script", "arrivals": arrivals}, "_poll": "zero-long"}
     yield {"kind": "paired-serialisation", "seed": rng.getrandbits(32), "n": 20 if tier == "quick" else 200}
 
 
